@@ -1,15 +1,22 @@
 SPEC = dict(
     level="exploration",
-    technique="runtime monitor",
-    level_text="wip",
-    level_note="wip",
+    technique="runtime monitor: reference models run side by side with the real RollingWindow and adaptiveShedder under the virtual clock of lib/timex (CPU reading scripted through systemOverloadChecker); seeded histories + a complete boundary family; -race runs with concurrent adders / 64 concurrent Allow-Pass-Fail callers; scripted-Shedder accounting oracle for the HTTP and gRPC integrations",
+    level_text="Window: after every Add / time advance of 2.6k seeded 200-step histories (gaps 0, 1ns, sub-bucket, bucket+-1ns, exactly to a boundary, multi-bucket, window+-1ns, up to 3 windows, 1h; size 1..50, interval 10ns..1s, with/without IgnoreCurrentBucket) and of a complete family of ~1.9k boundary cases, the multiset of non-empty buckets shown by Reduce is compared with a list-of-adds reference; under -race 16 adders + 4 readers per phase, exact comparison at every barrier. Shedder: 500 seeded traces (400-1000 ops) of arrivals, Pass/Fail, whole-ms time advances and CPU readings; every Allow is checked against the two implications of the statement with a reference copy of the windows, flying against the outstanding list at every quiescent point; under -race 64 goroutines (frozen clock, and clock advanced concurrently). Held = no deviation on the executions observed, not a proof.",
+    level_note="Trusts: Go runtime and race detector, the virtual clock hook, the ~60-line reference models. Not asserted (the statement does not determine it, or it would flag a shedder that merely rejects less): the exact moment 1000 ms after the last overload reading; rejections the reference would make but the shedder does not (droppedRecently gate, max(1,..) floor, 1000 ms default/cap of the minimum latency, rounding of the per-bucket mean: the reference capacity uses floor and no lower bound so it is never above the implementation's); the EWMA formula (only 0 <= avgFlying <= max outstanding); order and number of buckets handed to Reduce (only the non-empty ones as a multiset); which HTTP status / gRPC error maps to Pass vs Fail (recorded in evidence); time moving *during* a call (updateOffset reads the clock twice; the property quantifies over calls separated by advances, so the clock moves only between calls in every deciding oracle); SheddingStat counters and stat.CpuUsage itself (replaced by the scripted reading).",
     design_ref="DESIGN.md §3 C09",
-    assumptions=[],
+    assumptions=[
+        "bucket grid origin: the statement does not say where the grid starts; windows are created on a multiple of the interval (creation grid == absolute grid), and in the 'unaligned' family an output is reported only if it is inconsistent with both the creation-time grid and the absolute grid",
+        "added values are small positive integers, latencies whole milliseconds and shedder time steps whole milliseconds, so no floating-point rounding decides a verdict (a relative tolerance of 1e-9 on the capacity comparison absorbs the float product in maxFlight)",
+        "shedder bucket durations divide one second exactly (50..1000 ms) and the shedder is created on the bucket grid",
+        "an overload 'observation' is an Allow call during which the scripted CPU reading is >= the configured threshold; 'within the last second' is decided only strictly away from exactly 1000 ms",
+        "the virtual clock never moves while a window or shedder call is in progress in the deciding oracles; in the -race variant with a concurrently advancing clock only in-flight conservation (flying >= own outstanding, == 0 at quiescence) is asserted",
+        "capacity conjunct of implication (2) uses the complete (non-current) buckets of the reference windows; with empty reference windows the capacity is taken as 0 (only flying > 0 and avg > 0 are required)",
+    ],
     runs=[
         dict(pkg="./lib/collection", run="^TestVerifC09Window", timeout=240, timeout_thorough=1500),
         dict(pkg="./lib/collection", run="^TestVerifC09Race", race=True, timeout=300, timeout_thorough=1500),
         dict(pkg="./lib/load", run="^TestVerifC09Shedder", timeout=240, timeout_thorough=1500),
-        dict(pkg="./lib/load", run="^TestVerifC09Race", race=True, timeout=300, timeout_thorough=1500),
+        dict(pkg="./lib/load", run="^TestVerifC09Race", race=True, timeout=300, timeout_thorough=2400),
         dict(pkg="./api/handler", run="^TestVerifC09", timeout=240, timeout_thorough=900),
         dict(pkg="./rpc/internal/serverinterceptors", run="^TestVerifC09", timeout=240, timeout_thorough=900),
     ],
